@@ -369,6 +369,8 @@ func (p *Parser) matchedArithm(lpos Pos, left, right token) {
 func (p *Parser) arithmEnd(ltok token, lpos Pos, old saveState) Pos {
 	if !p.peekArithmEnd() {
 		if p.recoverError() {
+			// Leave the arithmetic lexer state, like the non-error path below.
+			p.postNested(old)
 			return recoveredPos
 		}
 		p.arithmMatchingErr(lpos, ltok, dblRightParen)
